@@ -7,7 +7,7 @@ from enum import Enum, IntEnum
 
 from asyncfix import FMsg, FTag
 from asyncfix.codec import Codec
-from asyncfix.errors import FIXConnectionError
+from asyncfix.errors import FIXConnectionError, FIXMessageError
 from asyncfix.journaler import Journaler
 from asyncfix.message import FIXMessage, MessageDirection
 from asyncfix.protocol import FIXProtocolBase
@@ -651,17 +651,24 @@ class AsyncFIXConnection:
         Args:
             resend_msg: ResendRequest(35=2) FIXMessage
         """
+        assert resend_msg.msg_type == FMsg.RESENDREQUEST
+        try:
+            begin_seq_no = int(resend_msg[FTag.BeginSeqNo])
+            end_seq_no = int(resend_msg[FTag.EndSeqNo])
+        except (FIXMessageError, ValueError) as exc:
+            # BeginSeqNo / EndSeqNo missing, repeated or not a number: nothing to
+            #  answer, and the connection stays as it is
+            self.log.warning(f"ResendRequest ignored, its range cannot be read: {exc}")
+            return
+
         if self._connection_state != ConnectionState.RESENDREQ_AWAITING:
             await self._state_set(ConnectionState.RESENDREQ_HANDLING)
 
-        assert resend_msg.msg_type == FMsg.RESENDREQUEST
         assert self._connection_state in {
             ConnectionState.RESENDREQ_HANDLING,
             ConnectionState.RESENDREQ_AWAITING,
         }
 
-        begin_seq_no = int(resend_msg[FTag.BeginSeqNo])
-        end_seq_no = int(resend_msg[FTag.EndSeqNo])
         if end_seq_no == 0:
             end_seq_no = sys.maxsize
         self.log.info("Received resent request from %s to %s", begin_seq_no, end_seq_no)
